@@ -38,7 +38,16 @@ private:
   void Function(SyntaxTree::Node& func);
 
   void CollectLocalNames(const SyntaxTree::Node& root);
-  static void EnumDeclaration(SyntaxTree::Node& quant);
+  void EnumDeclaration(SyntaxTree::Node& quant);
+  void RenameBoundVariables(SyntaxTree::Node& target);
+  static void CollectBoundNames(const SyntaxTree::Node& root, std::unordered_set<std::string>& names);
+  static void CollectDeclaredNames(const SyntaxTree::Node& declaration, std::unordered_set<std::string>& names);
+  void RenameLocals(
+    SyntaxTree::Node& target,
+    const std::unordered_set<std::string>& oldNames,
+    NameSubstitutes& newNames
+  );
+  [[nodiscard]] std::string CreateLocalName();
   void TupleDeclaration(SyntaxTree::Node& declaration, SyntaxTree::Node& predicate);
 
   [[nodiscard]] std::string ProcessTupleDeclaration(SyntaxTree::Node& root);
